@@ -26,7 +26,7 @@ func ProfilePlain(avoid map[string]string) *Profile {
 func ProfileCodec(avoid map[string]string) *Profile {
 	return &Profile{Name: "codec", MaxDataMessages: 3, MaxFields: 4, Nested: true, Maps: true, Oneofs: true,
 		Optionals: true, Repeateds: true, Enums: true, Timestamps: true, MessageFields: true,
-		MaxServices: 1, MaxMethods: 2, Transport: true, BasePaths: true, QueryOnBody: false,
+		MaxServices: 1, MaxMethods: 5, Transport: true, BasePaths: true, QueryOnBody: false,
 		Features: Features(AllFeatures...), MultiFeature: false, AnnotatedNested: true, AnnotateAnyCard: true, MultiWordChild: true,
 		Avoid: avoid}
 }
